@@ -17,6 +17,7 @@ use super::{hx, unhx};
 use crate::{exec_line, rng::Rng, Out, Session};
 use hexane::{ColumnValueRef, DeltaColumn, LoadOpts, PackError, PrefixColumn, RawColumn};
 use std::collections::BTreeMap;
+use std::panic::{catch_unwind, AssertUnwindSafe};
 
 type Column<T> = hexane::Column<T>;
 
@@ -376,28 +377,16 @@ impl Col for Raw {
         if i < self.0.len() { Some(self.0.iter_at(i).take(1)[0]) } else { None }
     }
     fn to_vec(&self) -> Vec<u8> {
-        // sequential reader: `take` returns at most the rest of the current slab
+        // sequential reader; `take(n)` must not cross a slab boundary, so read byte by byte
         let mut it = self.0.iter();
-        let mut out = vec![];
-        loop {
-            let chunk = it.take(usize::MAX);
-            if chunk.is_empty() { break; }
-            out.extend_from_slice(chunk);
-        }
-        out
+        (0..self.0.len()).map(|_| it.take(1)[0]).collect()
     }
     fn range(&self, a: usize, b: usize) -> Vec<u8> {
         let n = self.0.len();
         let (a, b) = (a.min(n), b.min(n));
         if a >= b { return vec![]; }
         let mut it = self.0.iter_at(a);
-        let mut out = vec![];
-        while out.len() < b - a {
-            let chunk = it.take(b - a - out.len());
-            if chunk.is_empty() { break; }
-            out.extend_from_slice(chunk);
-        }
-        out
+        (a..b).map(|_| it.take(1)[0]).collect()
     }
     fn runs(&self) -> Vec<(usize, u8)> { self.to_vec().into_iter().map(|b| (1, b)).collect() }
     fn find(&self, v: &u8) -> Vec<usize> { self.to_vec().iter().enumerate().filter(|(_, b)| *b == v).map(|(i, _)| i).collect() }
@@ -412,6 +401,11 @@ impl Col for Raw {
 }
 
 // ── program interpreter + direct oracle ─────────────────────────────────────
+
+fn panic_msg(e: Box<dyn std::any::Any + Send>) -> String {
+    let m = if let Some(s) = e.downcast_ref::<String>() { s.clone() } else if let Some(s) = e.downcast_ref::<&str>() { s.to_string() } else { "?".to_string() };
+    m.replace('\n', " ")
+}
 
 fn check_against_vec<C: Col>(c: &C, vec: &[C::V], after: &str, fails: &mut Vec<String>) {
     let n = vec.len();
@@ -431,13 +425,19 @@ fn check_against_vec<C: Col>(c: &C, vec: &[C::V], after: &str, fails: &mut Vec<S
     if n > 0 {
         let t = &vec[n / 2];
         let want: Vec<usize> = (0..n).filter(|&j| &vec[j] == t).collect();
-        let got = c.find(t);
-        // delta columns search realised values only; their oracle is in `oracle`
-        if got != want && !(got.is_empty() && t.show() == "n") {
-            fails.push(format!("! C34 after {} find({}) = {} but Vec gives {}", after, t.show(), show_idx(&got), show_idx(&want)));
+        match catch_unwind(AssertUnwindSafe(|| c.find(t))) {
+            // delta columns search realised values only: a null target finds nothing
+            Ok(got) => if got != want && !(got.is_empty() && t.show() == "n") {
+                fails.push(format!("! C34 after {} find({}) = {} but Vec gives {}", after, t.show(), show_idx(&got), show_idx(&want)));
+            },
+            Err(e) => fails.push(format!("! C34 after {} find({}) panicked: {}", after, t.show(), panic_msg(e))),
         }
     }
-    c.oracle(vec, fails);
+    let mut extra = vec![];
+    match catch_unwind(AssertUnwindSafe(|| c.oracle(vec, &mut extra))) {
+        Ok(()) => fails.extend(extra),
+        Err(e) => fails.push(format!("! C34 after {} a value query panicked: {}", after, panic_msg(e))),
+    }
 }
 
 fn run_prog<C: Col>(toks: &[&str]) -> Vec<String> {
@@ -470,7 +470,13 @@ fn run_prog<C: Col>(toks: &[&str]) -> Vec<String> {
                         for (k, v) in c.runs() { for _ in 0..k { expanded.push(v.clone()); } }
                         show_runs(&expanded)
                     }
-                    "fv" => show_idx(&c.find(&C::V::parse(p[1]))),
+                    "fv" => {
+                        let t = C::V::parse(p[1]);
+                        match catch_unwind(AssertUnwindSafe(|| c.find(&t))) {
+                            Ok(r) => show_idx(&r),
+                            Err(e) => { fails.push(format!("! C34 find({}) panicked: {}", p[1], panic_msg(e))); "panic".into() }
+                        }
+                    }
                     _ => c.query(&p).unwrap_or_else(|| "na".into()),
                 };
                 out.push(format!("q {} {}", tok, res));
@@ -503,10 +509,16 @@ fn run_load<C: Col>(bytes: &[u8], opts: &[&str]) -> Vec<String> {
         if let Some(n) = o.strip_prefix("len=") { len = Some(n.parse().unwrap()); }
         if let Some(v) = o.strip_prefix("fill=") { fill = Some(C::V::parse(v)); }
     }
-    let res = match (len, fill) {
-        (Some(n), Some(v)) => match C::load_fill(bytes, n, v) { Some(r) => r, None => return vec!["na".into()] },
-        (Some(n), None) => C::load_len(bytes, n),
-        _ => C::load(bytes),
+    let res = catch_unwind(AssertUnwindSafe(|| match (len, fill.clone()) {
+        (Some(n), Some(v)) => C::load_fill(bytes, n, v),
+        (Some(n), None) => Some(C::load_len(bytes, n)),
+        _ => Some(C::load(bytes)),
+    }));
+    let res = match res {
+        Ok(Some(r)) => r,
+        Ok(None) => return vec!["na".into()],
+        // C35: loading arbitrary bytes must return a column or an error
+        Err(e) => return vec!["panic".into(), format!("! C35 load panicked on {}: {}", hx(bytes), panic_msg(e))],
     };
     match res {
         Err(e) => vec![format!("err {}", err_kind(&e))],
@@ -900,7 +912,7 @@ pub fn generate(r: &mut Rng, _opts: &BTreeMap<String, String>, sess: &mut Sessio
     let mut vals = gen_batch(r, ct2, vt2, &mut seq);
     vals.extend(gen_batch(r, ct2, vt2, &mut seq));
     let built = exec(&["hexane.prog", ct2, vt2, &format!("s:0:0:{}", join(&vals))]);
-    let valid = unhx(built.last().unwrap().split(' ').nth(1).unwrap());
+    let valid = unhx(built.iter().find(|l| l.starts_with("ok ")).unwrap().split(' ').nth(1).unwrap());
     exec_line(sess, &format!("hexane.load {} {} {}", ct2, vt2, hx(&valid)), out);
     out.count("load_valid");
     for _ in 0..4 {
